@@ -126,6 +126,7 @@ def run_fmt(ctx):
     toky = dict(zip(idx, harness.run_ops([{"op": "tokens", "text": ys[i]} for i in idx])))
     treey = dict(zip(idx, harness.run_ops([{"op": "tree", "text": ys[i]} for i in idx])))
     if ctx.prop == "C09":
+        treex = dict(zip(idx, harness.run_ops([{"op": "tree", "text": texts[i]} for i in idx])))
         genx = dict(zip(idx, harness.run_ops([{"op": "gen", "text": texts[i], "order": ALL, "fresh": True} for i in idx])))
         geny = dict(zip(idx, harness.run_ops([{"op": "gen", "text": ys[i], "order": ALL, "fresh": True} for i in idx])))
     else:
@@ -153,6 +154,13 @@ def run_fmt(ctx):
         cz = causes_of(b)
         problems = []
         if ctx.prop == "C09":
+            # (0) the formatter only accepts what the grammar accepts: the parser of the SAME tree, with its error listeners on
+            #     lexer and parser (ParseAll, what `compile` uses), and the Lean lexer/parser must not both call the text invalid
+            tx = treex[i]
+            if tx.get("errors", 0) != 0 and kb == "err":
+                problems.append("a syntactically invalid text (rejected by the tree's own parser with %d error(s) and by the grammar model) was formatted instead of "
+                                "being returned unchanged with an error" % tx.get("errors"))
+                cz = []
             # (1) parses, consumes everything  (2) retains content  (3) same compiled output
             ty = treey[i]
             if ty.get("errors", 1) != 0:
@@ -351,7 +359,7 @@ def so_format(so, text_bytes, d):
 CLI_HANGS = [0]     # invocations of this run that did not end: the first gets every benefit of the doubt, the later ones less
 
 
-def cli(cbin, args, cwd, timeout=300):
+def cli(cbin, args, cwd, timeout=150):
     if CLI_HANGS[0]:
         timeout = min(timeout, 60 if CLI_HANGS[0] < 3 else 15)
     try:
